@@ -24,6 +24,7 @@ RULE = (
     "single preemption is placed at the 1st, 2nd and last visit of every source line (first-call initialisation races). The same "
     "location-bounded placement replaces 'every point' for pairs longer than 1600 (thorough: 6000) scheduling points. Oracle: each thread's bytes/value/exception equal its solo "
     "result. states = distinct (pair, schedule) executions; transitions = scheduling points executed."
+    ' Operations sl_read_deep (40-node list), bytesdec_write and bytesdec_write_small (different powers of ten), the latter two also as a cold-start pair.'
 )
 ASSUMPTIONS = [
     "scheduling points are line events in fastavro frames (quick); code outside /repo/fastavro (C extensions such as _decimal/struct/zlib, and pure-Python stdlib) is treated as atomic",
@@ -259,6 +260,15 @@ def op_bytesdec_write(fa, c, k):
     return out
 
 
+def op_bytesdec_write_small(fa, c, k):
+    out = []
+    for v in ("0.5", "0.25", "1.5"):  # scaled up by smaller powers of ten than op_bytesdec_write needs
+        fo = io.BytesIO()
+        fa.schemaless_writer(fo, c["bdec"], decimal.Decimal(v))
+        out.append(fo.getvalue())
+    return out
+
+
 OPS = [
     ("dec3_read", op_dec3_read), ("dec12_read", op_dec12_read), ("fixdec_write", op_fixdec_write),
     ("json_read_defaults", op_json_read_defaults), ("json_write", op_json_write), ("parse_raw", op_parse_raw),
@@ -268,7 +278,7 @@ OPS = [
     ("json_write_node", op_json_write_node), ("json_read_node", op_json_read_node), ("few_strings", op_few_strings), ("many_strings", op_many_strings),
     ("fingerprint", op_fingerprint),
     ("cont_write_null", op_cont_write_null), ("cont_write_bz", op_cont_write_bz), ("legacy_write", op_legacy_write), ("legacy_validate", op_legacy_validate),
-    ("sl_read_deep", op_sl_read_deep), ("bytesdec_write", op_bytesdec_write),
+    ("sl_read_deep", op_sl_read_deep), ("bytesdec_write", op_bytesdec_write), ("bytesdec_write_small", op_bytesdec_write_small),
 ]
 CHUNKS = 16
 OPCODE_FILES = ("_logical_readers_py.py", "_logical_writers_py.py", "json_decoder.py", "parser.py", "binary_encoder.py")
@@ -276,15 +286,15 @@ OPCODE_FILES = ("_logical_readers_py.py", "_logical_writers_py.py", "json_decode
 
 def units(tier):
     idx = range(len(OPS))
-    special = set(range(14, 29))
+    special = set(range(14, 30))
     us = [("pair", a, b) for a, b in itertools.combinations_with_replacement(idx, 2)
           if (tier == "thorough" and not ({a, b} & {21, 22})) or not ({a, b} & special)
           or (a, b) in ((14, 15), (16, 17), (14, 17), (18, 18), (18, 19), (19, 19), (20, 21), (20, 20), (22, 22), (5, 22),
-                        (10, 23), (23, 24), (10, 24), (25, 25), (25, 26), (26, 26), (8, 25), (27, 27), (13, 27), (28, 28), (2, 28))]
+                        (10, 23), (23, 24), (10, 24), (25, 25), (25, 26), (26, 26), (8, 25), (27, 27), (13, 27), (28, 28), (2, 28), (28, 29))]
     us = [(u, c) for u in us for c in range(CHUNKS)]
     # cold start: every execution begins with a freshly imported library (first-call initialisation races);
     # deviations at the 1st, 2nd and last visit of every source line of the default execution
-    cold = [(22, 22), (8, 8), (28, 28)] if tier == "quick" else [(22, 22), (5, 5), (8, 8), (4, 4), (3, 3), (0, 1), (18, 18), (10, 11), (12, 12), (7, 7), (2, 2), (28, 28), (2, 28), (27, 27)]
+    cold = [(22, 22), (8, 8), (28, 29)] if tier == "quick" else [(22, 22), (5, 5), (8, 8), (4, 4), (3, 3), (0, 1), (18, 18), (10, 11), (12, 12), (7, 7), (2, 2), (28, 28), (28, 29), (2, 28), (27, 27)]
     us += [(("cold", a, b), 0) for a, b in cold]
     if tier == "thorough":
         us += [(u, 0) for u in [("triple", 0, 1, 2), ("triple", 0, 1, 1), ("triple", 8, 9, 10), ("triple", 3, 3, 4), ("triple", 5, 6, 7), ("triple", 12, 12, 13)]]
